@@ -91,7 +91,7 @@ func monitor(prop string, h *History, res *common.Result) {
 		if s.Op.Kind == "disconnect" && h.Cfg.NoClear {
 			noclearDisc = true
 		}
-		if s.Op.Kind == "restart" {
+		if s.Op.Kind == "restart" || s.Op.Kind == "restartwith" {
 			noclearDisc = false
 		}
 		v := &s.View
@@ -144,6 +144,21 @@ func monitor(prop string, h *History, res *common.Result) {
 					return
 				}
 			}
+		case "C04":
+			// after expiry (or any other end) the key is dead: a Renew / Unlock that reports success must
+			// address a hold that exists under exactly that (name, key)
+			if (s.Op.Kind == "renew" || s.Op.Kind == "unlock") && s.Resp.Ok && s.Before != nil {
+				l, ok := s.Before.Table[s.Op.Name]
+				if !ok || !contains(l.Keys, impl.Tok(s.Op.Key)) {
+					viol(res, prop, "seq:lease:dead-key-accepted", fmt.Sprintf("%q succeeded although lock %q has no live hold with that key", s.Op.Line(), s.Op.Name), h, i, nil)
+					return
+				}
+			}
+		case "C14":
+			if isRequest(s.Op.Kind) && s.Resp.Ok && s.Resp.Err != "-" && s.Resp.Err != "" {
+				viol(res, prop, "seq:code:success-with-error", fmt.Sprintf("%q reports success (locked/unlocked = true) together with the error %s", s.Op.Line(), s.Resp.Err), h, i, nil)
+				return
+			}
 		case "C09":
 			// a kill at a quiescent point = the file as it is now: it must load and must record exactly the
 			// acknowledged live holds (sequential: nothing is in flight)
@@ -158,6 +173,12 @@ func monitor(prop string, h *History, res *common.Result) {
 				}
 			}
 		case "C18":
+			if !noclearDisc {
+				if lt, tt := strings.Join(holdsOfListing(v), " "), strings.Join(holdsOfTable(v), " "); lt != tt {
+					viol(res, prop, "seq:ipc:listing-vs-holds", fmt.Sprintf("after %q the admin listing shows {%s} but the holds occupying capacity are {%s}", s.Op.Line(), lt, tt), h, i, nil)
+					return
+				}
+			}
 			// an admin unlock that reports success has the whole effect of the holder's own Unlock: the hold is
 			// gone from the lock table, the listing, the state file and the lease timers
 			if s.Op.Kind == "ipcunlock" && s.Resp.Ok {
@@ -295,7 +316,7 @@ func leaseMonitor(prop string, h *History, res *common.Result) {
 					}
 				}
 			}
-		case "restart":
+		case "restart", "restartwith":
 			// what the new process restored is what its listing shows; all with the default lease
 			for _, r := range holds {
 				r.ended = true
@@ -434,7 +455,7 @@ func waitMonitor(prop string, h *History, res *common.Result) {
 				return
 			}
 		}
-		if s.Op.Kind == "restart" {
+		if s.Op.Kind == "restart" || s.Op.Kind == "restartwith" {
 			pending = map[int]*pend{}
 		}
 	}
@@ -456,6 +477,7 @@ func nameOfReq(h *History, req int) string {
 // ---------------------------------------------------------------- C10: restart
 
 func restartMonitor(prop string, h *History, res *common.Result) {
+	restoredAt := map[string]int64{} // "name/key" restored by the latest restart and not touched since -> restart instant
 	ended := map[string]bool{} // "name/key" that ended at some point (never to come back)
 	for i := range h.Steps {
 		s := &h.Steps[i]
@@ -470,7 +492,7 @@ func restartMonitor(prop string, h *History, res *common.Result) {
 					after[impl.Tok(n)+"/"+k] = true
 				}
 			}
-			if s.Op.Kind != "restart" {
+			if s.Op.Kind != "restart" && s.Op.Kind != "restartwith" {
 				for n, l := range s.Before.Table {
 					for _, k := range l.Keys {
 						if !after[impl.Tok(n)+"/"+k] {
@@ -479,10 +501,60 @@ func restartMonitor(prop string, h *History, res *common.Result) {
 					}
 				}
 			}
+			// restored holds: the original key works from any session, and without a Renew the hold lasts
+			// exactly the default lock timeout
+			nk0 := impl.Tok(s.Op.Name) + "/" + impl.Tok(s.Op.Key)
+			if t0, ok := restoredAt[nk0]; ok && (s.Op.Kind == "unlock" || s.Op.Kind == "renew" && s.Op.T > 0) {
+				beforeHas := false
+				if l, ok2 := s.Before.Table[s.Op.Name]; ok2 && contains(l.Keys, impl.Tok(s.Op.Key)) {
+					beforeHas = true
+				}
+				if beforeHas && !s.Resp.Ok {
+					viol(res, prop, "seq:restart:original-key-refused", fmt.Sprintf("%q on the restored hold %s (restored at %d) was refused with %s although the hold is live", s.Op.Line(), nk0, t0, s.Resp.Err), h, i, nil)
+					return
+				}
+				delete(restoredAt, nk0) // its lease is no longer the default one
+			}
+			for nk, t0 := range restoredAt {
+				switch {
+				case !after[nk] && s.Now < t0+int64(h.Cfg.Dlt):
+					if s.Op.Kind == "unlock" || s.Op.Kind == "ipcunlock" || s.Op.Kind == "restart" || s.Op.Kind == "restartwith" || s.Op.Kind == "disconnect" {
+						delete(restoredAt, nk)
+						continue
+					}
+					viol(res, prop, "seq:restart:restored-hold-early-end", fmt.Sprintf("restored hold %s (restart at %d, default lock timeout %d) is gone at %d after %q, before its default lease ran out", nk, t0, int64(h.Cfg.Dlt), s.Now, s.Op.Line()), h, i, nil)
+					return
+				case after[nk] && s.Now >= t0+int64(h.Cfg.Dlt) && s.Op.Kind == "adv":
+					viol(res, prop, "seq:restart:restored-hold-outlives-default-lease", fmt.Sprintf("restored hold %s (restart at %d, default lock timeout %d) still occupies capacity at %d", nk, t0, int64(h.Cfg.Dlt), s.Now), h, i, nil)
+					return
+				case !after[nk]:
+					delete(restoredAt, nk)
+				}
+			}
+			if s.Op.Kind == "restart" || s.Op.Kind == "restartwith" {
+				restoredAt = map[string]int64{}
+				for nk := range after {
+					restoredAt[nk] = s.Now
+				}
+			}
 			for nk := range after {
 				if ended[nk] {
 					viol(res, prop, "seq:restart:ended-hold-returned", fmt.Sprintf("hold %s had ended, but after %q it occupies capacity again", nk, s.Op.Line()), h, i, nil)
 					return
+				}
+			}
+			if (s.Op.Kind == "restart" || s.Op.Kind == "restartwith") && h.Cfg.File {
+				// after a start-up, also from a file that lists more holds than fit: what is listed is what
+				// occupies capacity (an entry that could not be re-locked is dropped from the bookkeeping)
+				if lt, tt := strings.Join(holdsOfListing(&s.View), " "), strings.Join(holdsOfTable(&s.View), " "); lt != tt {
+					viol(res, prop, "seq:restart:listing-vs-holds", fmt.Sprintf("after %q the listing shows {%s} but the holds occupying capacity are {%s}", s.Op.Line(), lt, tt), h, i, nil)
+					return
+				}
+				for n, l := range s.View.Table {
+					if int64(len(l.Keys)) > int64(l.Size) {
+						viol(res, prop, "seq:restart:over-capacity", fmt.Sprintf("after %q lock %q of size %d has %d holders", s.Op.Line(), n, l.Size, len(l.Keys)), h, i, nil)
+						return
+					}
 				}
 			}
 			if s.Op.Kind == "restart" && h.Cfg.File {
@@ -595,7 +667,7 @@ func gcIdleMonitor(prop string, h *History, res *common.Result) {
 		if h.TieAt >= 0 && i >= h.TieAt || strings.HasPrefix(s.Impl, "panic ") || strings.HasPrefix(s.Impl, "start-failed ") {
 			return
 		}
-		if s.Op.Kind == "restart" {
+		if s.Op.Kind == "restart" || s.Op.Kind == "restartwith" {
 			last = map[string]int64{}
 			continue
 		}
